@@ -173,8 +173,9 @@ def U1_claim_before(ctx):
             cas = [e for e in p.events if e.kind == 'call' and callee_matches(e.d['callee'], ('::compare_exchange_weak', '::compare_exchange'))]
             ok = ok and cas and cas[-1].d['args'][1] == cur and is_add1(cas[-1].d['args'][2], cur)
             # success decided
-            succ = [a for a in p.events if a.kind == 'atom' and mentions(a.d['term'], cas[-1].d['result']) and a.d['outcome'] in ('true', 'Ok')] if cas else []
-            ok = ok and bool(succ)
+            # the CAS on the value just loaded SUCCEEDED (however tested: is_ok / is_err / match)
+            succ = [of for of in (option_fact(a) for a in p.events) if of and strip(of[0]) == strip(cas[-1].d['result'])] if cas else []
+            ok = ok and bool(succ) and succ[-1][1] == 'Ok'
             ok = ok and holds_rel(p, len(p.events), lambda op, l, r: op == 'Lt' and l == strip(cur) and r == ('arg', 2))
             if not ok:
                 bad.append(p)
@@ -759,3 +760,72 @@ def WHO_tables(ctx):
             rw |= facts.owners(b['fn'])
     ctx.ob('WHO', 'Scheduler.results', 'who-touches-outcomes', rw <= {'install_commit_loop_result', 'replay_uncommitted_suffix', 'take_result_and_state', 'build'} and 'install_commit_loop_result' in rw, f'{sorted(rw)}',
            what='outcomes are written by the commit-result installation and by sequential replay only')
+
+
+def U4_frontier_init_and_progress(ctx):
+    """the frontier starts at 0 over flags that start false; advance() stops exactly when a scan made no progress and restarts
+    each scan from where the last one (or a concurrent helper) got to; an in-range rewind takes a tick of exactly 1"""
+    f = ctx.method('ExecutionFrontier', 'new')
+    ok0 = okf = False
+    for p in feasible(f.paths()):
+        ret = [e for e in p.events if e.kind == 'ret'][0].d['value']
+        for s in subterms(ret):
+            if s[0] == 'agg' and s[1].endswith('ExecutionFrontier') and s[4]:
+                fl = dict(zip(s[4].split(','), s[3]))
+                fr = fl.get('frontier')
+                if fr is not None and fr[0] == 'call' and fr[2] == (('const', '0_usize'),):
+                    ok0 = True
+    for c in ctx.facts.closures_under(f.name):
+        for p in feasible(ctx.fn(c).paths()):
+            r = [e for e in p.events if e.kind == 'ret'][0].d['value']
+            if r[0] == 'call' and 'Atomic' in r[1] and r[2] == (('const', 'false'),):
+                okf = True
+            elif r[0] == 'call' and 'Atomic' in r[1] and r[2] == (('const', 'true'),):
+                okf = False
+                break
+    ctx.ob('U4', f, 'frontier-starts-at-zero-over-unset-flags', ok0 and okf, f'frontier=0:{ok0} flags=false:{okf}', site=f.loc(f.b['lo']),
+           what='a flag that starts set, or a frontier that starts above 0, lets validation claims pass a transaction that never executed')
+    g = ctx.method('ExecutionFrontier', 'advance')
+    bad = []
+    n_ret = n_pub = 0
+    for p in [q for q in g.paths(max_visits=3) if q.end in ('return', 'cut')]:
+        ev = p.events
+        # scans: runs of `executed[i]` loads between publications
+        trues = 0
+        scan_start = ('arg', 2)
+        for i, e in enumerate(ev):
+            if e.kind == 'atom' and e.d['term'][0] == 'call' and callee_matches(e.d['term'][1], '::load') and mentions_field(e.d['term'][2][0], 'ExecutionFrontier.executed') and e.d['outcome'] == 'true':
+                trues += 1
+            if e.kind == 'call' and callee_matches(e.d['callee'], '::fetch_max') and mentions_field(e.d['args'][0], 'ExecutionFrontier.frontier'):
+                n_pub += 1
+                if trues == 0:
+                    bad.append((e, 'the frontier is published after a scan that found nothing new (with the restart below: an endless loop)'))
+                # the next scan does not start where this one started
+                nxt_scan = [a for a in ev[i + 1:] if a.kind == 'atom' and norm_cmp(a) and has_call(a.d['term'], '::len') and mentions_field(a.d['term'], 'ExecutionFrontier.executed')]
+                if nxt_scan:
+                    op, l, r = norm_cmp(nxt_scan[0])
+                    idx = r if has_call(l, '::len') else l
+                    if not (mentions(idx, strip(e.d['result'])) or mentions(idx, strip(e.d['args'][1]))):
+                        bad.append((e, 'after publishing, the next scan restarts from the old start (it never terminates once it has moved)'))
+                trues = 0
+        if p.end == 'return':
+            n_ret += 1
+            if trues > 0:
+                bad.append((ev[-1], 'advance returns although its last scan found newly executed transactions (their completion is never published)'))
+    ctx.ob('U4', g, 'advance-publishes-progress-and-terminates', n_ret >= 1 and n_pub >= 1 and not bad, '; '.join(sorted({f'{site(g, e)} {w}' for e, w in bad})[:3]), site=g.loc(g.b['lo']),
+           what='advance(): scan the contiguous executed run; no progress ⇒ return; progress ⇒ fetch_max(end) and rescan from max(previous frontier, end)')
+    h = ctx.method('SchedulerContext', 'rewind_validation_to')
+    bad = []
+    n = 0
+    for p in feasible(h.paths()):
+        eff = [e for e in p.events if e.kind == 'call' and (callee_matches(e.d['callee'], '::fetch_max') or is_call(e, 'RewindableCursor::rewind'))]
+        if not eff:
+            continue
+        n += 1
+        if not holds_rel(p, idx_of(p, eff[0]), lambda op, l, r: op == 'Lt' and l == ('arg', 2) and mentions_field(r, 'num_txs')):
+            bad.append('a rewind takes effect without `index < num_txs` having been established (index == num_txs is the "one past the last transaction" no-op)')
+        for e in p.events:
+            if e.kind == 'call' and callee_matches(e.d['callee'], '::fetch_add') and mentions_field(e.d['args'][0], 'logical_clock') and e.d['args'][1] != ('const', '1_usize'):
+                bad.append(f'the clock advances by {show(e.d["args"][1])} (ticks must be unique)')
+    ctx.ob('U4', h, 'rewind-bounds-and-unit-tick', n >= 1 and not bad, '; '.join(sorted(set(bad))), site=h.loc(h.b['lo']),
+           what='rewind_validation_to(txid+1) is called for the last transaction too; it must be a no-op there, and every effective rewind owns a fresh tick')
